@@ -157,6 +157,11 @@ def parse_element(
     ):
         if keyword in schema:
             schema[keyword] = parser(schema, state)  # type: ignore
+    for keyword in ("properties", "required"):
+        # Empty, these constrain nothing and are not serialized: next to
+        # composition keywords they must not count as a schema of their own.
+        if keyword in schema and schema[keyword] in ([], {}):
+            del schema[keyword]
     schema["additionalProperties"] = _parse_additional_properties(schema, state)
     schema["additionalItems"] = _parse_additional_items(schema, state)
     if set(COMPOSITION_KEYWORDS) & set(schema):
